@@ -32,7 +32,8 @@ type healthScen struct {
 	Via      string `json:"via"`
 	Interval int    `json:"interval"`
 	Policy   string `json:"policy"`
-	HPort    bool   `json:"hport"` // active checks go to a separate health port
+	HPort    bool   `json:"hport"`  // active checks go to a separate health port
+	DefInt   bool   `json:"defint"` // no interval configured (documented default 30 s): only the check made at once is observed
 }
 
 // refusedPort reserves a TCP port that refuses connections: bound, never listening.
@@ -435,6 +436,9 @@ func runHealth(sc healthScen, idx int) (map[string]any, error) {
 		addr := rp.Addr()
 		dial := addr
 		active := map[string]any{"interval": int64(ms(sc.Interval)), "timeout": int64(ms(200))}
+		if sc.DefInt {
+			delete(active, "interval")
+		}
 		if sc.HPort {
 			// the service port always accepts; health is what the separate health port says
 			svc, err := net.Listen("tcp", "127.0.0.1:0")
@@ -472,6 +476,16 @@ func runHealth(sc healthScen, idx int) (map[string]any, error) {
 		rec.Add(vh.Ev{"e": "Down"})
 		time.Sleep(ms(bound + 30))
 		sample()
+		if sc.DefInt {
+			// the next check is 30 s away: the run ends with what the check made at once has found
+			rp.Close()
+			ev := []vh.Ev{}
+			for _, e := range rec.Snapshot() {
+				ev = append(ev, e)
+			}
+			out["bound"], out["ev"] = bound, ev
+			return out, nil
+		}
 		// the peer starts accepting
 		rp.Close()
 		ln, err := net.Listen("tcp", addr)
